@@ -145,6 +145,40 @@ fn base_source(t: &mut Tape) -> String {
     src
 }
 
+/// legal (or at least lexable) programs built around an empty construct
+pub const EMPTY_CONSTRUCTS: &[&str] = &[
+    "from t | derive {x = f\"\"}",
+    "from t | select {x = f\"\" ?? \"a\", y = \"\"}",
+    "from t | filter f\"\" == \"\" | aggregate {n = count f\"\"}",
+    "from t | derive {x = f\"{a}\", y = f\"\", z = f\"{a}{b}\"} | sort {y}",
+    "from t | derive {x = s\"\"}",
+    "from t | select {}",
+    "from t | select {a} | select !{a}",
+    "from t | take 0",
+    "from t | take 0..0",
+    "from t | sort {}",
+    "from t | group {} (aggregate {n = count this})",
+    "from t | group {} (take 1)",
+    "from t | aggregate {}",
+    "from t | derive {}",
+    "from t | window rows:0..0 (derive {s = sum a})",
+    "from t | derive {x = case []}",
+    "from t | filter (a | in [])",
+    "from t | join u (true) | select {}",
+    "from [] | select {a = 1}",
+    "from [{}]",
+    "from [{a = 1}] | select {}",
+    "from t | append (from u | select {})",
+    "let f = -> 1\nfrom t | derive {x = f}",
+    "from t | derive {x = \"\" + \"\", y = r\"\", z = ''}",
+    "from t | filter true | filter false | take 1..",
+    "from_text ''",
+    "from_text format:json '[]'",
+    "from t | loop (filter false)",
+    "module m {}\nfrom t",
+    "from t | select {x = (a | in ..)}",
+];
+
 /// token-level mutation of a valid program
 pub fn gen_source_case(t: &mut Tape) -> Case {
     let src = base_source(t);
@@ -794,6 +828,12 @@ pub fn run(ctx: &Ctx) -> i32 {
     for s in crate::util::corpus_programs() {
         for d in 0..DIALECTS.len() {
             corpus.push(Case { kind: "source".into(), input: s.clone(), dialect: d });
+        }
+    }
+    // constructs with nothing in them, under every dialect
+    for s in EMPTY_CONSTRUCTS {
+        for d in 0..DIALECTS.len() {
+            corpus.push(Case { kind: "source".into(), input: format!("{s}\n"), dialect: d });
         }
     }
     ctx.enumerate("repo-queries", corpus, |c| check(c, &ctx.known));
